@@ -246,6 +246,9 @@ func (y *sys) projSet(u *unstructured.Unstructured) string {
 	_ = unstructured.SetNestedSlice(c.Object, keep, "status", "conditions")
 	// uids are identities of incarnations (history), like the uids in owner references (projRefs):
 	// status.remotePhases is compared by phase object name
+	if archived { // frozen at archival like the conditions: which phases had been reached by then is history
+		unstructured.RemoveNestedField(c.Object, "status", "remotePhases")
+	}
 	if rps, ok, _ := unstructured.NestedSlice(c.Object, "status", "remotePhases"); ok {
 		for _, x := range rps {
 			if m, ok := x.(map[string]interface{}); ok {
@@ -346,8 +349,20 @@ func ConvBase(r *rand.Rand, delegated bool) Scn {
 	if s.Cluster {
 		objNS = "ns1"
 	}
+	// in cluster-scoped scenarios some objects are cluster-scoped kinds (the choice is per name, so that
+	// every revision lists the same object)
+	clusterKind := map[string]bool{}
+	if s.Cluster {
+		for _, n := range []string{"a", "b", "c", "d"} {
+			clusterKind[n] = r.Intn(3) == 0
+		}
+	}
 	mk := func(name, payload string) verifphase.PObj {
-		return verifphase.PObj{Kind: "NsThing", NS: objNS, Name: name, CP: pick(r, []string{"Prevent", "Prevent", "IfNoController", "None"}), Payload: payload, DryRun: "accept"}
+		o := verifphase.PObj{Kind: "NsThing", NS: objNS, Name: name, CP: pick(r, []string{"Prevent", "Prevent", "IfNoController", "None"}), Payload: payload, DryRun: "accept"}
+		if clusterKind[name] {
+			o.Kind, o.NS = "ClThing", ""
+		}
+		return o
 	}
 	class := func(i int) string {
 		if delegated && (i == 0 || r.Intn(3) == 0) {
@@ -373,7 +388,11 @@ func ConvBase(r *rand.Rand, delegated bool) Scn {
 		s.Sets = append(s.Sets, os2)
 	}
 	ready := func(name string) Step {
-		return Step{Op: "env", Env: []verifphase.EnvOp{{Op: "setReady", Kind: "NsThing", NS: "ns1", Name: name, Ready: true, ObsGen: -1}}}
+		e := verifphase.EnvOp{Op: "setReady", Kind: "NsThing", NS: "ns1", Name: name, Ready: true, ObsGen: -1}
+		if clusterKind[name] {
+			e.Kind, e.NS = "ClThing", ""
+		}
+		return Step{Op: "env", Env: []verifphase.EnvOp{e}}
 	}
 	add := func(st ...Step) { s.Steps = append(s.Steps, st...) }
 	touchPhases := func(sp SetSpec) {
@@ -442,6 +461,15 @@ func ConvBase(r *rand.Rand, delegated bool) Scn {
 func driftStep(r *rand.Rand, s Scn) Step {
 	name := pick(r, []string{"a", "b", "c", "d"})
 	e := verifphase.EnvOp{Kind: "NsThing", NS: "ns1", Name: name, ObsGen: -1}
+	for _, sp := range s.Sets {
+		for _, ph := range sp.Phases {
+			for _, o := range ph.Objects {
+				if o.Name == name && o.Kind == "ClThing" {
+					e.Kind, e.NS = "ClThing", ""
+				}
+			}
+		}
+	}
 	e.Op = pick(r, []string{"setPayload", "setPayload", "delete", "delete", "setReady", "relabel"})
 	if e.Op == "relabel" && s.Sets[0].PkgLabel == "" {
 		e.Op = "setPayload" // without a package label PKO does not manage that label: nothing to repair
@@ -496,8 +524,30 @@ func Disturb(r *rand.Rand, base Scn, nFaults, nDrift int) Scn {
 			// stripped ownerReferences can only be repaired while the owner still wants the object: the
 			// edit triggers a reconcile of every revision before anything else happens (a revision
 			// deleted right after the edit could never learn that the object was its own)
-			for _, sp := range s.Sets {
-				ds = append(ds, Step{Op: "reconcile", Set: sp.Name})
+			// ... and not while a revision is paused (hands-off by design, C09)
+			paused := map[string]bool{}
+			for _, st := range s.Steps[:i] {
+				if st.Op == "lifecycle" {
+					paused[st.Set] = st.Value == "Paused"
+				}
+			}
+			for _, v := range paused {
+				if v {
+					ds = nil
+				}
+			}
+			// the edit triggers reconciles of every revision and every delegated phase until the pause
+			// state and the adoption have propagated; these repair passes are not themselves disturbed
+			for k := 0; k < 3 && ds != nil; k++ {
+				for _, sp := range s.Sets {
+					ds = append(ds, Step{Op: "reconcile", Set: sp.Name, Value: "repair"})
+				}
+				for _, pn := range s.phaseNames() {
+					ds = append(ds, Step{Op: "phase", Set: pn, Value: "repair"})
+				}
+			}
+			if ds == nil {
+				continue
 			}
 		}
 		s.Steps = append(s.Steps[:i], append(ds, s.Steps[i:]...)...)
@@ -509,7 +559,7 @@ func Disturb(r *rand.Rand, base Scn, nFaults, nDrift int) Scn {
 	// faults are placed left to right: the calls of a pass depend on everything before it
 	var passes []int
 	for i, st := range s.Steps {
-		if isPass(st) {
+		if isPass(st) && st.Value != "repair" {
 			passes = append(passes, i)
 		}
 	}
